@@ -328,7 +328,14 @@ def gen_case(rng, tier, force_key=None):
     if layout == "raw":
         payload, views = raw, [("raw", raw)]
     else:
-        img, info = P.build_pe(rng, arch=rng.choice(["x86", "x64"]), data=raw, nsec=rng.randrange(1, 5))
+        lf, pre = 0x80, b""
+        if layout != "pe" and rng.random() < 0.25:
+            # a stage with prepended bytes in front of the image and a large e_lfanew: each below 1024, their sum beyond it
+            lf = rng.choice([0x80, 0x200, 0x3E0, 1000])
+            pre = (b"\x90" if rng.random() < 0.5 else b"\x41") * rng.choice([64, 300, 600, 900, 1000])
+            meta["prepend"] = f"{len(pre)}+lfanew{lf}"
+        img, info = P.build_pe(rng, arch=rng.choice(["x86", "x64"]), data=raw, nsec=rng.randrange(1, 5), lfanew=lf)
+        img = pre + img
         if layout == "pe":
             payload, views = img, [("raw", img)]
         else:
@@ -449,6 +456,32 @@ def run_shard(shard, ctx):
                     "hows": ["bytes"], "meta": {"layout": "raw", "decoys": 1 if mode == 2 else 0, "near_boundary": True, "place": "key-sweep", "fill": "random"}}
             check_case(case, ctx)
         return
+    if shard.get("dominant", 0):
+        # (first thing in a fresh process) the same two-candidate payload analysed with all keys before and after another
+        # payload in which one of its keys is the most frequent byte: the answer for a payload does not depend on what was
+        # analysed before it
+        from dissect.cobaltstrike import beacon
+
+        ctx.mon("history.independent")
+        for _ in range(3):
+            y = rng.choice([x for x in range(1, 120) if x not in (0x69, 0x2E)])
+            x = rng.choice([v for v in range(y + 1, 255) if v not in (0x69, 0x2E)])
+            short = lambda k, port: P.rx1(tlv.short(1, 0) + tlv.short(2, port) + tlv.S(26, 3, bytes(rng.randrange(0x41, 0x5B) for _ in range(30))), k)  # noqa: E731
+            two = b"AB" * 9 + short(x, 1111) + b"CD" * 11 + short(y, 2222) + b"EF" * 5
+            other = b"GH" * 7 + P.rx1((tlv.short(1, 8) + tlv.short(2, 3333)).ljust(4096, b"\0"), x) + b"IJ" * 3
+            seen = []
+            try:
+                for pl in (two, other, two, two):
+                    c = beacon.BeaconConfig.from_bytes(pl, all_xor_keys=True)
+                    seen.append((c.xorkey, c.port))
+            except Exception as e:  # noqa: BLE001
+                ctx.violation("history.independent", f"all-keys analyses in a row: {type(e).__name__}: {e}", {"op": "allkeys-history", "x": x, "y": y})
+                break
+            if seen[0] != seen[2] or seen[0] != seen[3] or seen[1] != (bytes([x]), 3333):
+                ctx.violation("history.independent", f"the same payload (blocks under keys {y:#x} and {x:#x}) analysed with all keys gives {seen[0]} at first and "
+                              f"{seen[2]} after a payload dominated by key {x:#x} was analysed", {"op": "allkeys-history", "x": x, "y": y})
+                break
+            ctx.ok(fp=("allkeys-history", x, y), nontrivial=True, case={"op": "allkeys-history", "x": x, "y": y}, classes=("history:allkeys-order",))
     for _ in range(shard.get("dominant", 0)):
         if ctx.out_of_time():
             break
